@@ -227,6 +227,14 @@ int flush_pubsub_msgs(void *data, const char *key, void *value) {
         M_DEBUG("Destroying enqueued pubsub message for module '%s'.\n", mod->name);
         m_mem_unref(mm);
     }
+    if (!stopping_mod && !m_mod_is(mod, M_MOD_RUNNING)) {
+        /*
+         * Loop is stopping and module is not running (ie: paused): its unread messages were just destroyed,
+         * drop the events it had already accumulated in the batch queue too, or they would resurface at the next loop run.
+         */
+        m_queue_clear(mod->batch.events);
+    }
+
     /* Keep mod alive: the handler may deregister it */
     m_mem_ref(mod);
     call_pubsub_cb(mod, flushed);
